@@ -151,7 +151,20 @@ func (vc *FnVC) globalAddr(g *ssa.Global) *Val {
 		s = "Int"
 	}
 	vc.key(name, s, "global")
-	return &Val{T: g.Type(), S: "1", Addr: &Addr{Kind: "global", Key: name, Elem: elem}}
+	a := &Addr{Kind: "global", Key: name, Elem: elem}
+	if c := vc.G.constGlobals[g]; c != nil {
+		a.Const = vc.constVal(c).S
+	}
+	if vc.G.nonNilGlobals[g] && s == "Iface" {
+		// init-only error value: the same non-nil interface throughout
+		cn := "gerr!" + sanitize(g.Pkg.Pkg.Path()+"."+g.Name())
+		if !vc.declSet[cn] {
+			vc.declare(cn, "Iface")
+			vc.fact(smtAnd(sx(">", sx("i.tag", cn), "0")))
+		}
+		a.Const = cn
+	}
+	return &Val{T: g.Type(), S: "1", Addr: a}
 }
 
 // ---------- loads and stores ----------
@@ -178,6 +191,9 @@ func (vc *FnVC) loadAddr(st *State, a *Addr) string {
 	case "elem":
 		return sx("select", sx("select", vc.get(st, a.Key), a.Base), a.Idx)
 	case "local", "global":
+		if a.Const != "" {
+			return a.Const
+		}
 		return vc.get(st, a.Key)
 	case "arrelem":
 		return sx("select", vc.loadAddr(st, a.Parent), a.Idx)
@@ -619,13 +635,16 @@ func (vc *FnVC) bytesToString(st *State, x *Val, to types.Type) *Val {
 		vc.note("string([]rune) havocked")
 		return vc.freshVal(st, to, "str")
 	}
-	k := vc.memKey(elem)
-	s := vc.freshName("str")
-	vc.declare(s, "Str")
-	m := vc.get(st, k.Name)
-	vc.assume(st, smtAnd(sx("=", sx("gs.len", s), sx("s.len", x.S)),
-		fmt.Sprintf("(forall ((k Int)) (! (=> (and (<= 0 k) (< k (s.len %s))) (= (gs.at %s k) (select (select %s (s.base %s)) (+ (s.off %s) k)))) :pattern ((gs.at %s k))))", x.S, s, m, x.S, x.S, s)))
+	s := vc.define("str", "Str", vc.bytesStr(st, x))
+	vc.assume(st, sx("=", sx("gs.len", s), sx("s.len", x.S)))
 	return &Val{T: to, S: s}
+}
+
+// bytesStr is the string value of the current contents of a byte slice.
+func (vc *FnVC) bytesStr(st *State, x *Val) string {
+	k := vc.memKey(x.T.Underlying().(*types.Slice).Elem())
+	vc.usedOfArr = true
+	return sx("gs.ofarr", sx("select", vc.get(st, k.Name), sx("s.base", x.S)), sx("s.off", x.S), sx("s.len", x.S))
 }
 
 // ---------- type tags for interfaces ----------
